@@ -15,6 +15,13 @@ let fl e f = string_of_bool e ^ string_of_bool f
 let r3 (((v, r), e), f) = string_of_z v ^ " " ^ hex_of_chars r ^ " " ^ fl e f
 let rat_str = function None -> "EXC" | Some (n, d) -> string_of_z n ^ "/" ^ string_of_z d
 let b s = (s = "1")
+(* trace of a sequence into one destination: one token  value:ef:next  per read, then the characters left *)
+let nx (r : Model.z list) = match r with [] -> "--" | c :: _ -> Printf.sprintf "%02x" ((iz c) land 255)
+let trace (show : 'a -> string) (t : ((('a * Model.z list) * bool) * bool) list) (whole : string) : string =
+  let toks = List.map (fun (((v, r), e), f) -> show v ^ ":" ^ fl e f ^ ":" ^ nx r) t in
+  let last = match List.rev t with [] -> whole | (((_, r), _), _) :: _ -> hex_of_chars r in
+  String.concat " " (toks @ [last])
+let nat_s s = nat_of_int (int_of_string s)
 let () = run_lines (fun toks ->
   match toks with
   | ["int.read"; old; h] -> r3 (Model.x_int_read (chars_of_hex h) (z_of_string old))
@@ -66,4 +73,19 @@ let () = run_lines (fun toks ->
      | None -> "NONE"
      | Some ts -> if ts = [] then "-" else String.concat "," (List.map (fun (i, c) -> string_of_z i ^ ":" ^ string_of_z c) ts))
   | ["poly.degfmt"; bal; p; cs] -> hex_of_chars (Model.x_poly_degfmt (b bal) (z_of_string p) (zlist_of_string cs))
+  | ["int.seqd"; old; n; h] -> trace string_of_z (Model.x_int_seqd (z_of_string old) (nat_s n) (chars_of_hex h)) h
+  | ["rat.seqd"; on; od; n; h] ->
+    trace (fun ((nu, de), ex) -> (if ex then "EXC=" else "") ^ string_of_z nu ^ "/" ^ string_of_z de)
+      (Model.x_rat_seqd (z_of_string on) (z_of_string od) (nat_s n) (chars_of_hex h)) h
+  | ["elt.seqd"; bal; word; lo; hi; p; n; h] ->
+    trace string_of_z (Model.x_elt_seqd (b bal) (b word) (z_of_string lo) (z_of_string hi) (z_of_string p) (nat_s n) (chars_of_hex h)) h
+  | ["ru.seqd"; k; hx; old; n; h] ->
+    trace string_of_z (Model.x_ru_seqd (nat_of_int (int_of_string k - 6)) (b hx) (z_of_string old) (nat_s n) (chars_of_hex h)) h
+  | ["ri.seqd"; k; hx; old; n; h] ->
+    trace string_of_z (Model.x_ri_seqd (nat_of_int (int_of_string k - 6)) (b hx) (z_of_string old) (nat_s n) (chars_of_hex h)) h
+  | ["poly.seqd"; bal; p; old; n; h] ->
+    trace string_of_zlist (Model.x_poly_seqd (b bal) (z_of_string p) (zlist_of_string old) (nat_s n) (chars_of_hex h)) h
+  | ["poly.wr"; var; bal; p; cs; old] ->
+    let (t, (((cs2, r), e), f)) = Model.x_poly_wr (chars_of_hex var) (b bal) (z_of_string p) (zlist_of_string cs) (zlist_of_string old) in
+    hex_of_chars t ^ " " ^ string_of_zlist cs2 ^ " " ^ hex_of_chars r ^ " " ^ fl e f
   | _ -> "BAD-LINE")
